@@ -78,6 +78,7 @@ def body(v, cls_name):
     from ghedesigner.enums import FlowConfigType
     vf = v.real('v', 1e-4, 10.0)
     rho = v.real('rho', 700.0, 1200.0)
+    rho20 = v.real('rho_at_20C', 700.0, 1200.0)      # the underlying fluid's density at another temperature: some other value
     n = v.integer('N', 1, 400)
     field = Field(n) if v.e is not None else [(0.0, float(i)) for i in range(n)]
     cls = getattr(SR, cls_name)
@@ -91,7 +92,8 @@ def body(v, cls_name):
     # BaseGHE.__init__ recomputes the per-borehole flow from the system flow it is given
     for sysflow, m_search in ((sys_b, m_b), (sys_s, m_s)):
         ghe = G.BaseGHE.__new__(G.BaseGHE)
-        G.BaseGHE.__init__(ghe, sysflow, 5.0, None, NS(rho=rho), NS(), NS(), NS(), NS(), NS(bore_locations=field), NS(), [])
+        fluid = NS(rho=rho, cp=4000.0, fluid=NS(density=lambda t: rho20, specific_heat=lambda t: 4000.0))
+        G.BaseGHE.__init__(ghe, sysflow, 5.0, None, fluid, NS(), NS(), NS(), NS(), NS(bore_locations=field), NS(), [])
         cs += [eq(ghe.m_flow_borehole, m_search, v), eq(G.REC['m_flow_to_bhe'], m_search, v), eq(ghe.V_flow_borehole * n, sysflow, v),
                eq(ghe.nbh, n, v) if v.e is not None else ghe.nbh == n]
     # an unknown flow type is refused
